@@ -29,7 +29,7 @@ import (
 	"reflect"
 	"slices"
 	"sort"
-	"sync/atomic"
+	"strings"
 	"time"
 	"unsafe"
 
@@ -361,9 +361,12 @@ func (x *router) dispatchToRoutees(ctx *ReceiveContext, msg any, routees []*PID)
 func (x *router) routeByStrategy(ctx *ReceiveContext, msg any, routees []*PID) {
 	switch x.routingStrategy {
 	case RoundRobinRouting:
-		n := atomic.AddUint32(&x.roundRobinNext, 1)
-		routee := routees[(int(n)-1)%len(routees)]
-		ctx.Tell(routee, msg)
+		// the cursor is kept modulo the pool size, so it never wraps around
+		// uint32 and stays in range when the pool shrinks; the router handles
+		// one message at a time, so no atomic is needed
+		idx := int(x.roundRobinNext % uint32(len(routees)))
+		x.roundRobinNext = uint32((idx + 1) % len(routees))
+		ctx.Tell(routees[idx], msg)
 	case RandomRouting:
 		routee := routees[rand.IntN(len(routees))] //nolint:gosec
 		ctx.Tell(routee, msg)
@@ -612,9 +615,12 @@ func (x *router) availableRoutees() ([]*PID, bool) {
 	for _, routee := range x.routeesMap {
 		if !routee.IsRunning() {
 			delete(x.routeesMap, routee.ID())
+			continue
 		}
 		routees = append(routees, routee)
 	}
+	// map iteration order is random: give the strategies a stable order
+	slices.SortFunc(routees, func(a, b *PID) int { return strings.Compare(a.ID(), b.ID()) })
 	return routees, len(routees) > 0
 }
 
